@@ -256,7 +256,7 @@ impl<T: Debug + PartialEq, F: RealNumber, D: Distance<T, F>> CoverTree<T, F, D> 
 
         let point = &self.data[0];
         let idx = 0;
-        let mut max_dist = -F::one();
+        let mut max_dist = F::zero();
 
         for i in 1..self.data.len() {
             let dist = self.distance.distance(point, &self.data[i]);
@@ -270,13 +270,18 @@ impl<T: Debug + PartialEq, F: RealNumber, D: Distance<T, F>> CoverTree<T, F, D> 
             }
         }
 
-        self.root = self.batch_insert(
+        let mut root = self.batch_insert(
             idx,
             self.get_scale(max_dist),
             self.get_scale(max_dist),
             &mut point_set,
             &mut consumed_set,
         );
+        if root.children.is_empty() {
+            // a single point: searches only ever report children, so the root needs its own leaf
+            root.children.push(self.new_leaf(idx));
+        }
+        self.root = root;
     }
 
     fn batch_insert(
@@ -291,7 +296,7 @@ impl<T: Debug + PartialEq, F: RealNumber, D: Distance<T, F>> CoverTree<T, F, D> 
             self.new_leaf(p)
         } else {
             let max_dist = self.max(point_set);
-            let next_scale = (max_scale - 1).min(self.get_scale(max_dist));
+            let next_scale = max_scale.saturating_sub(1).min(self.get_scale(max_dist));
             if next_scale == std::i64::MIN {
                 let mut children: Vec<Node<F>> = Vec::new();
                 let mut leaf = self.new_leaf(p);
